@@ -12,7 +12,7 @@
    of tools/harness/c11.py, which also runs Spec and Model side by side on every case). *)
 From PV Require Import Base.Bytes Base.Outcome Base.Fmt Spec.PrimSpec Spec.ElfGabi Spec.C11Container
   Model.C11Elf Model.C11Dwarf Gen.C11Names
-  Proofs.C11Crc Proofs.C11View Proofs.C11Zgnu Proofs.C11Links Proofs.C11Reject Proofs.C11Refine Proofs.C11Gen Proofs.C11Stored
+  Proofs.C11Crc Proofs.C11View Proofs.C11Zgnu Proofs.C11Links Proofs.C11Reject Proofs.C11Refine Proofs.C11Seq Proofs.C11Gen Proofs.C11Stored
   Proofs.C11Examples.
 From Coq Require Import Lia.
 Open Scope list_scope.
@@ -390,6 +390,28 @@ Theorem C11_model_view_invariant_zgnu :
 Proof. exact model_zgnu_invariant. Qed.
 Print Assumptions C11_model_view_invariant_zgnu.
 
+(* call sequences on ONE ELFFile object (state = the cached section name map): the n-th answer
+   is the answer of a fresh object to the n-th call's own (relocate, follow_links) ... *)
+Theorem C11_calls_stateless :
+  forall (inflate : list Z -> Z -> option (list Z * bool)) fuel loader e,
+  constructible e = true -> forall calls st, st_valid e st ->
+  obj_run inflate fuel loader e st calls
+  = map (fun c => get_dwarf_info inflate fuel loader e (fst c) (snd c)) calls.
+Proof. exact calls_stateless. Qed.
+Print Assumptions C11_calls_stateless.
+
+(* ... and shows the specification's view of those flags, whatever was called before *)
+Theorem C11_calls_views :
+  forall (inflate : list Z -> Z -> option (list Z * bool)) fuel loader e,
+  (forall d n, 2 ^ 63 <= n -> inflate d n = None) ->
+  (forall (load : list Z -> option (list Z)) (n b : list Z),
+     loader = Some load -> load n = Some b -> all_bytes b = true) ->
+  constructible e = true -> forall calls,
+  map res_view (obj_run inflate fuel loader e None calls)
+  = map (fun c => debug_view inflate parse_opt fuel loader e (fst c) (snd c)) calls.
+Proof. exact calls_views. Qed.
+Print Assumptions C11_calls_views.
+
 (* the transforms keep a file constructible, so they can be iterated and mixed *)
 Theorem C11_transforms_constructible : forall e, constructible e = true ->
   (forall choice, gabi_choice_ok choice e = true -> constructible (T_gabi choice e) = true) /\
@@ -505,6 +527,13 @@ Proof.
   apply (C11_view_two_hop inflate_stored ex2_parse ex_stripped ex_dbg_name ex_pad ex2_crc 200 [1]
            ex2_load ex2_dbg_bytes ex2_dbg_elf); try reflexivity; vm_compute; reflexivity.
 Qed.
+
+(* a call sequence on a concrete object: three answers, each a DWARFInfo, the state being valid *)
+Example C11_ex_calls :
+  st_valid ex_elf None /\ constructible ex_elf = true /\
+  map (fun r => match res_view r with Some _ => true | None => false end)
+      (obj_run inflate_stored 2 None ex_elf None [(true, true); (false, false); (true, false)]) = [true; true; true].
+Proof. split; [left; reflexivity|]. split; [reflexivity|vm_compute; reflexivity]. Qed.
 
 (* rejections: a concrete bad framing; presence on a concrete file *)
 Example C11_ex_zdebug_bad :
